@@ -147,6 +147,8 @@ type TxView interface {
 	NodeForRefresh(sel int) (*NodeKeys, uint64) // node to (re-)register and its new expiration
 	// Tree is the committed state tree the view reads from (for extension transaction kinds).
 	Tree() mkvs.ImmutableKeyValueTree
+	// Height is the height of the committed state the view reads from.
+	Height() int64
 }
 
 // TxBuilder builds the transaction of an extension kind. It may return a different signer than
